@@ -43,11 +43,45 @@ use serde::{Deserialize, Serialize};
 /// [`ShortMessageType::ControlChange`]: enum.ShortMessageType.html#variant.ControlChange
 /// [`ControlChange14BitMessageScanner`]: struct.ControlChange14BitMessageScanner.html
 #[derive(Copy, Clone, Eq, PartialEq, Hash, Debug)]
-#[cfg_attr(feature = "serde", derive(Serialize, Deserialize))]
+#[cfg_attr(
+    feature = "serde",
+    derive(Serialize, Deserialize),
+    serde(try_from = "UncheckedControlChange14BitMessage")
+)]
 pub struct ControlChange14BitMessage {
     channel: Channel,
     msb_controller_number: ControllerNumber,
     value: U14,
+}
+
+/// Deserialization goes through this unchecked mirror so that the invariant of
+/// [`ControlChange14BitMessage::new`] is enforced for deserialized values as well.
+#[cfg(feature = "serde")]
+#[derive(Deserialize)]
+#[serde(rename = "ControlChange14BitMessage")]
+struct UncheckedControlChange14BitMessage {
+    channel: Channel,
+    msb_controller_number: ControllerNumber,
+    value: U14,
+}
+
+#[cfg(feature = "serde")]
+impl core::convert::TryFrom<UncheckedControlChange14BitMessage> for ControlChange14BitMessage {
+    type Error = &'static str;
+
+    fn try_from(m: UncheckedControlChange14BitMessage) -> Result<Self, Self::Error> {
+        if m.msb_controller_number
+            .corresponding_14_bit_lsb_controller_number()
+            .is_none()
+        {
+            return Err("controller number can't be used for a 14-bit Control Change message");
+        }
+        Ok(ControlChange14BitMessage {
+            channel: m.channel,
+            msb_controller_number: m.msb_controller_number,
+            value: m.value,
+        })
+    }
 }
 
 impl ControlChange14BitMessage {
